@@ -199,6 +199,21 @@ class StoreRun:
         elif sub == "dup":
             k = min(pos, n - 1)
             rec = (ch["bin1_id"][k], ch["bin2_id"][k])
+        elif sub == "dupfar":
+            # the copy is NOT next to its original: at the end of the original's row when that row
+            # has further records (same row, other columns in between), else at the end of the
+            # chunk, else in front of it
+            k = min(pos, n - 1)
+            rec = (ch["bin1_id"][k], ch["bin2_id"][k])
+            e = k + 1
+            while e < n and ch["bin1_id"][e] == rec[0]:
+                e += 1
+            if e > k + 1:
+                pos = e
+            elif n > k + 1:
+                pos = n
+            else:
+                pos = 0
         for col in ch:
             if col == "bin1_id":
                 ch[col].insert(pos, rec[0])
@@ -434,6 +449,9 @@ class StoreRun:
                       ensure_sorted=un["ensure_sorted"])
             if un.get("delete_temp") is False:
                 kw["delete_temp"] = False
+            if un.get("dupcheck") is False:
+                kw["dupcheck"] = False
+                self.stat("unordered-dupcheck-off")
         else:
             kw.update(ordered=True)
 
@@ -1651,8 +1669,20 @@ def _op_zoomify(self, op):
         if op.get("agg"):
             kw["agg"] = dict(op["agg"])
 
+        # one list object of resolutions kept by the caller and handed to several calls
+        res_arg = resolutions
+        if op.get("res_object") == "keep":
+            self._res_obj = list(resolutions)
+            self._res_obj_orig = list(resolutions)
+            res_arg = self._res_obj
+        elif op.get("res_object") == "reuse":
+            if getattr(self, "_res_obj", None) is None or self._res_obj_orig != list(resolutions):
+                raise Skip("no kept resolutions list")
+            res_arg = self._res_obj
+            self.stat("resolutions-list-object-reused")
+
         def call():
-            cooler.zoomify_cooler(uris if len(uris) > 1 or op.get("as_list") else uris[0], out, resolutions, **kw)
+            cooler.zoomify_cooler(uris if len(uris) > 1 or op.get("as_list") else uris[0], out, res_arg, **kw)
     fs_old = self.fs.clone()
     zfault = op.get("fault")
     self._arm_open_fault(zfault)
